@@ -33,6 +33,7 @@ CONNECT_FAULTS = ['refused', 'timeout', 'gaierror', 'unreachable']
 HOOKS = ['before_upstream_connection', 'handle_client_request', 'handle_upstream_chunk', 'on_access_log',
          'on_upstream_connection_close', 'resolve_dns', 'handle_client_data', 'web_route']
 ROLES = ['forward', 'tunnel', 'web', 'reverse']
+ADV_ROLES = ROLES + ['reverse-keepalive']
 RULE = ('enumeration: for each (canary role, adversary role, schedule pattern) a fault-free dry run counts the socket calls on the '
         'adversary sockets and the adversary peer actions; every (call ordinal x errno), (action index x peer fault), connect '
         'fault and plugin-hook exception is then run; sampled: Hypothesis-drawn byte adversaries and random schedules. '
@@ -113,6 +114,10 @@ def conversation(role: str, who: str, explode: Optional[str] = None) -> Dict[str
     if role == 'web':
         path = b'/gen/%d/%d/3' % (5000, len(who)) if explode != 'web_route' else b'/gen/not-a-number/0/1'
         return {'requests': [b'GET ' + path + b' HTTP/1.1\r\nHost: localhost\r\n\r\n'], 'tunnel': None}
+    if role == 'reverse-keepalive':
+        # several sequential requests on one reverse-proxy connection: the plugin replaces its upstream connection for each
+        one = b'POST /rb/adv HTTP/1.1\r\nHost: front.test\r\nContent-Length: %d\r\n\r\n' % len(body) + body
+        return {'requests': [one, one, one], 'tunnel': None}
     if role == 'reverse':
         path = b'/ra/%s' % who.encode() if who != 'adv' else b'/rb/adv'
         return {'requests': [b'POST ' + path + b' HTTP/1.1\r\nHost: front.test\r\nContent-Length: %d\r\n\r\n' % len(body) + body], 'tunnel': None}
@@ -222,7 +227,7 @@ def alone_transcript(role: str, who: str) -> Dict[str, Any]:
     return _ALONE[key]
 
 
-SCHED_PATTERNS = {'adv-first': [2] * 6 + [1, 2] * 20, 'canary-first': [1] * 6 + [2, 1] * 20, 'alternate': [1, 2, 3, 4] * 15,
+SCHED_PATTERNS = {'canary-opens-early-sends-late': [1, 2, 2, 2, 2, 2, 2, 2, 2, 0, 0, 2, 2, 2, 2], 'adv-first': [2] * 6 + [1, 2] * 20, 'canary-first': [1] * 6 + [2, 1] * 20, 'alternate': [1, 2, 3, 4] * 15,
                   'origins-late': [1, 2, 1, 2, 1, 2, 0, 0, 3, 4, 3, 4] * 5}
 
 
@@ -292,8 +297,13 @@ def run_case(c: Dict[str, Any], dry: bool = False) -> Dict[str, Any]:
         w.on_connect = on_connect     # type: ignore[method-assign]
     if adv['kind'] == 'bytes' or adv.get('explode'):
         state['fired'] = True
-    w.order = ['canary', 'adv']
-    w.schedule = list(c.get('schedule') or SCHED_PATTERNS[c.get('pattern', 'alternate')])
+    # who moves first inside one loop iteration decides the order in which the executor sees the events (and, e.g.,
+    # which work gets a descriptor number another one has just released)
+    w.order = ['adv', 'canary'] if c.get('adv_first') else ['canary', 'adv']
+    sched = list(c.get('schedule') or SCHED_PATTERNS[c.get('pattern', 'alternate')])
+    if c.get('adv_first'):
+        sched = [{1: 2, 2: 1}.get(x, x) for x in sched]     # keep the pattern's meaning (1 = canary, 2 = adversary)
+    w.schedule = sched
 
     def open_canary2(world: K.World) -> None:
         conv = conversation(c['canary'], 'canary2')
@@ -364,14 +374,16 @@ def replay(case: Dict[str, Any]) -> List[Dict[str, Any]]:
 def shards(tier: str) -> List[Dict[str, Any]]:
     q = tier == 'quick'
     out = []
-    patterns = ['alternate', 'adv-first'] if q else list(SCHED_PATTERNS)
+    patterns = ['alternate', 'adv-first', 'canary-opens-early-sends-late'] if q else list(SCHED_PATTERNS)
     for crole in (ROLES if not q else ['forward', 'tunnel', 'web', 'reverse']):
-        for arole in ROLES:
+        for arole in ADV_ROLES:
             out.append({'name': 'enum-%s-vs-%s' % (crole, arole), 'kind': 'enum', 'canary': crole, 'adv_role': arole, 'patterns': patterns})
     for i in range(4 if q else 12):
         out.append({'name': 'bytes-%d' % i, 'kind': 'bytes', 'examples': 400 if q else 6000})
     for i in range(2 if q else 6):
         out.append({'name': 'random-faults-%d' % i, 'kind': 'random', 'examples': 400 if q else 6000})
+    for i in range(3 if q else 9):
+        out.append({'name': 'interleavings-%d' % i, 'kind': 'interleave', 'examples': 500 if q else 8000})
     return out
 
 
@@ -384,7 +396,7 @@ def run_shard(spec: Dict[str, Any], seed: int, acc: Any) -> None:
                 dry = run_case(base, dry=True)
                 ncalls, nacts = dry['state']['adv_calls'], dry['state']['adv_actions']
                 dry['world'].teardown()
-                cases: List[Dict[str, Any]] = [dict(base)]
+                cases: List[Dict[str, Any]] = [dict(base), dict(base, adv_first=True)]
                 for k_ in range(ncalls):
                     for e in ERRNOS:
                         cases.append(dict(base, fault={'type': 'errno', 'k': k_, 'errno': e}))
@@ -427,10 +439,16 @@ def run_shard(spec: Dict[str, Any], seed: int, acc: Any) -> None:
                 return {'canary': draw(st.sampled_from(ROLES)), 'adv': {'kind': 'bytes', 'data': data, 'cuts': ic['cuts'],
                                                                        'finish': draw(st.sampled_from([None, 'close', 'shut']))},
                         'schedule': draw(st.lists(st.integers(0, 4), max_size=40))}
+        elif spec['kind'] == 'interleave':
+            @st.composite
+            def strat(draw: Any) -> Dict[str, Any]:
+                # no injected fault: two (or three) well-formed conversations, only the interleaving varies
+                return {'canary': draw(st.sampled_from(ROLES)), 'adv': {'kind': 'conv', 'role': draw(st.sampled_from(ADV_ROLES + ['reverse-keepalive'] * 3))},
+                        'adv_first': draw(st.booleans()), 'schedule': draw(st.lists(st.integers(0, 4), max_size=40))}
         else:
             @st.composite
             def strat(draw: Any) -> Dict[str, Any]:
-                arole = draw(st.sampled_from(ROLES))
+                arole = draw(st.sampled_from(ADV_ROLES))
                 ft = draw(st.sampled_from(['errno', 'errno', 'peer', 'connect']))
                 if ft == 'errno':
                     fault = {'type': 'errno', 'k': draw(st.integers(0, 40)), 'errno': draw(st.sampled_from(ERRNOS))}
@@ -439,7 +457,7 @@ def run_shard(spec: Dict[str, Any], seed: int, acc: Any) -> None:
                 else:
                     fault = {'type': 'connect', 'what': draw(st.sampled_from(CONNECT_FAULTS))}
                 return {'canary': draw(st.sampled_from(ROLES)), 'adv': {'kind': 'conv', 'role': arole, 'slow_reader': arole == 'forward' and draw(st.booleans())},
-                        'fault': fault,
+                        'fault': fault, 'adv_first': draw(st.booleans()),
                         'schedule': draw(st.lists(st.integers(0, 4), max_size=60))}
 
         def chk(c: Dict[str, Any]) -> List[Any]:
